@@ -45,7 +45,7 @@ static int c14_main(int argc,char **argv){
         ai.management_active=1;
         ai.bitrate_limit_max_kbps=atol(tok[4]); ai.bitrate_average_kbps=atol(tok[5]); ai.bitrate_limit_min_kbps=atol(tok[6]);
         ai.bitrate_limit_reservoir_bits=atol(tok[7]); ai.bitrate_limit_reservoir_bias=atof(tok[8]);
-        if(n>=10&&tok[9][0]!='X') ai.bitrate_average_damping=atof(tok[9]);
+        if(n>=10&&tok[9][0]!='X'&&tok[9][0]!='K') ai.bitrate_average_damping=atof(tok[9]);
         if(!rc) rc=vorbis_encode_ctl(&E14.vi,OV_ECTL_RATEMANAGE2_SET,&ai);
         /* X<max>:<avg>:<min>:<kind>: a second request with other (consistent) limits and one tuning value out of range: it must be refused
            and leave the accepted configuration as it is */
@@ -54,6 +54,12 @@ static int c14_main(int argc,char **argv){
           a2.bitrate_limit_max_kbps=mx; a2.bitrate_average_kbps=av; a2.bitrate_limit_min_kbps=mn;
           if(kind==0)a2.bitrate_limit_reservoir_bias=1.5; else if(kind==1)a2.bitrate_average_damping=0.; else if(kind==2)a2.bitrate_limit_reservoir_bits=-5; else a2.bitrate_limit_reservoir_bias=NAN;
           refused=vorbis_encode_ctl(&E14.vi,OV_ECTL_RATEMANAGE2_SET,&a2); hasref=1; }
+        /* K<mask>: other control requests between the accepted rate request and setup_init, each restating the value it reads back
+           (1 coupling, 2 lowpass, 4 impulse block bias): none of them is about rate management, the accepted limits and tuning must survive */
+        { int j,mask=0; for(j=9;j<n;j++)if(tok[j][0]=='K')mask=atoi(tok[j]+1);
+          if(!rc&&(mask&1)){ int v=1; vorbis_encode_ctl(&E14.vi,OV_ECTL_COUPLING_GET,&v); vorbis_encode_ctl(&E14.vi,OV_ECTL_COUPLING_SET,&v); }
+          if(!rc&&(mask&2)){ double v=0; vorbis_encode_ctl(&E14.vi,OV_ECTL_LOWPASS_GET,&v); vorbis_encode_ctl(&E14.vi,OV_ECTL_LOWPASS_SET,&v); }
+          if(!rc&&(mask&4)){ double v=0; vorbis_encode_ctl(&E14.vi,OV_ECTL_IBLOCK_GET,&v); vorbis_encode_ctl(&E14.vi,OV_ECTL_IBLOCK_SET,&v); } }
         if(!rc) rc=vorbis_encode_setup_init(&E14.vi);
       }
       if(rc){ printf("cfg rc=%s\n",ovname(rc)); vorbis_info_clear(&E14.vi); }
